@@ -54,6 +54,17 @@ func MetaRow(r *Region) Row {
 		{Row: r.Name, Family: []byte("info"), Qualifier: []byte("server"), Timestamp: 1, Type: TypePut, Value: []byte(metaHostOf(r))},
 		{Row: r.Name, Family: []byte("info"), Qualifier: []byte("serverstartcode"), Timestamp: 1, Type: TypePut, Value: []byte{0, 0, 1, 0, 0, 0, 0, 1}},
 	}
+	if r.ReplicaHost != "" {
+		// region replication: the row also carries the location columns of the secondary replica (qualifier + "_0001"), in
+		// qualifier order like every row; the primary's columns are still the ones without a suffix
+		cells = []KV{cells[0], cells[1],
+			{Row: r.Name, Family: []byte("info"), Qualifier: []byte("seqnumDuringOpen_0001"), Timestamp: 1, Type: TypePut, Value: []byte{0, 0, 0, 0, 0, 0, 0, 3}},
+			cells[2],
+			{Row: r.Name, Family: []byte("info"), Qualifier: []byte("server_0001"), Timestamp: 1, Type: TypePut, Value: []byte(r.ReplicaHost)},
+			cells[3],
+			{Row: r.Name, Family: []byte("info"), Qualifier: []byte("serverstartcode_0001"), Timestamp: 1, Type: TypePut, Value: []byte{0, 0, 1, 0, 0, 0, 0, 2}},
+		}
+	}
 	return Row{Key: r.Name, Cells: cells}
 }
 
@@ -87,6 +98,7 @@ type ScanCut struct {
 	NoMoreResults bool // claim more_results = false (end of the whole scan) although the region scanner may stay open
 	Exc           string
 	Heartbeat     bool // an empty response carries heartbeat_message = true (the server ran into its time limit)
+	EmptyFirst    bool // a response with results begins with a result of no cells, flagged partial (an empty fragment)
 }
 
 func (c *Cluster) metaRowsLocked() []Row {
@@ -205,7 +217,12 @@ func (c *Cluster) serveScan(rs *RS, sc *ServerConn, req *Request, p *pb.ScanRequ
 			return
 		}
 		c.nextScan++
-		scn = &regionScanner{id: c.nextScan, region: r, meta: meta, addr: rs.Addr, reversed: p.GetScan().GetReversed()}
+		id := c.nextScan
+		if c.ZeroScanID && !meta && !c.zeroScanUsed { // scanner ids are the server's business: 0 is as good as any
+			id, c.zeroScanUsed = 0, true
+			c.nextScan--
+		}
+		scn = &regionScanner{id: id, region: r, meta: meta, addr: rs.Addr, reversed: p.GetScan().GetReversed()}
 		scn.rows = c.selectRowsLocked(r, meta, p.GetScan())
 		c.scanners[scn.id] = scn
 		rn := ""
@@ -248,6 +265,10 @@ func (c *Cluster) serveScan(rs *RS, sc *ServerConn, req *Request, p *pb.ScanRequ
 	resp := &pb.ScanResponse{ScannerId: proto.Uint64(scn.id)}
 	var cb []byte
 	chunk := []map[string]any{}
+	if cut.EmptyFirst && cut.Entries > 0 && c.InCellblock {
+		resp.CellsPerResult = append(resp.CellsPerResult, 0)
+		resp.PartialFlagPerResult = append(resp.PartialFlagPerResult, true)
+	}
 	for e := 0; e < cut.Entries; e++ {
 		row := scn.rows[scn.pos]
 		cells := row.Cells[scn.cellsOut:]
